@@ -61,11 +61,17 @@ def main():
             conf['compiles'] = sh(['go', 'build', './...'], cwd=CLONE).returncode == 0
             conf['existing_tests_pass_with_change'] = sh(['go', 'test', '-vet=off', '-count=1', './...'], cwd=CLONE, timeout=1500).returncode == 0
             shutil.copyfile(os.path.join(src, 'demo_test.go'), os.path.join(CLONE, 'zz_seed_demo_test.go'))
-            conf['demo_fails_with_change'] = sh(['go', 'test', '-vet=off', '-count=1', '-run', 'ZZSeed', '.'], cwd=CLONE, timeout=900).returncode != 0
+            demo = ['go', 'test', '-vet=off', '-count=1', '-run', 'ZZSeed', '.']
+            conf['demo_fails_with_change'] = sh(demo, cwd=CLONE, timeout=900).returncode != 0
+            if not conf['demo_fails_with_change']:
+                # a data race shows under the race detector only
+                demo.insert(2, '-race')
+                conf['demo_fails_with_change'] = sh(demo, cwd=CLONE, timeout=1500).returncode != 0
+                conf['demo_needs_race_detector'] = True
             sh(['git', '-C', CLONE, 'reset', '-q', '--hard', 'HEAD'])
-            conf['demo_passes_on_clean_tree'] = sh(['go', 'test', '-vet=off', '-count=1', '-run', 'ZZSeed', '.'], cwd=CLONE, timeout=900).returncode == 0
+            conf['demo_passes_on_clean_tree'] = sh(demo, cwd=CLONE, timeout=1500).returncode == 0
             reset()
-            if not all(conf.values()):
+            if not all(v for k, v in conf.items() if k != 'demo_needs_race_detector'):
                 print(name, 'NOT CONFIRMED', conf, flush=True); continue
             os.makedirs(d, exist_ok=True)
             shutil.copyfile(os.path.join(src, 'patch.diff'), os.path.join(d, 'patch.diff'))
@@ -85,7 +91,7 @@ def main():
             conf['compiles'] = sh(['go', 'build', './...'], cwd=CLONE).returncode == 0
             conf['existing_tests_pass_with_change'] = sh(['go', 'test', '-vet=off', '-count=1', './...'], cwd=CLONE, timeout=1500).returncode == 0
             reset()
-            if not all(conf.values()):
+            if not all(v for k, v in conf.items() if k != 'demo_needs_race_detector'):
                 print(name, 'NOT CONFIRMED', conf, flush=True); continue
             os.makedirs(d, exist_ok=True)
             shutil.copyfile(os.path.join(src, 'patch.diff'), os.path.join(d, 'patch.diff'))
